@@ -547,7 +547,10 @@ def check_header(cf, header, tag, first_base, col, data):
     decode = decode_header_only if header_only else decode_stream
     try:
         err, got, got_pcm = decode(blob)
-        if (err is not None and isinstance(err, ValueNotAllowedInLevel) and getattr(err, "key", None) == "major_version"):
+        # known finding, tight signature: level 64/65 (low delay, major_version {2}) refuses the minimal version 1
+        if (err is not None and level in (64, 65) and isinstance(err, ValueNotAllowedInLevel)
+                and getattr(err, "key", None) == "major_version" and getattr(err, "value", None) == 1
+                and int(cf["profile"]) == 0):
             allowed = allowed_values_for(LEVEL_CONSTRAINTS, "major_version", {"level": level, "profile": int(cf["profile"])})
             vals = sorted(allowed.iter_values()) if not _is_any(allowed) else []
             col.fail("level-major-version-conflict", data,
